@@ -21,4 +21,7 @@ CONSTANTS
   DropGuarded = TRUE
   CreateFromDrop = TRUE
   ProbeAfterDrop = TRUE
+  PrefixPairs = {}
+  BareColls = {}
+  GcPrefix = FALSE
   TabT = {0}
